@@ -892,6 +892,192 @@ Section Equiv.
   Qed.
 End Equiv.
 
+(** * A slice that cannot be loaded *)
+
+Lemma sl_lookup_put_none k k' s st : sl_lookup k' st <> None -> (sl_lookup k (sl_put k' s st) = None <-> sl_lookup k st = None).
+Proof.
+  intros H. destruct (sl_lookup k' st) as [s0|] eqn:E; [|contradiction]. rewrite (sl_lookup_put _ _ _ _ _ E).
+  destruct (slkey_eqb k k') eqn:Ek; [|tauto]. apply slkey_eqb_spec in Ek. subst. rewrite E. split; discriminate.
+Qed.
+
+Lemma load_phase_slices_erase ns id names : forall xs acc xs' evs r,
+  load_phase_slices xs ns id names acc = (xs', evs, r) -> erase_slice_events evs = [].
+Proof.
+  induction names as [|n rest IH]; intros xs acc xs' evs r; cbn [load_phase_slices].
+  - intros H. now injection H as <- <- <-.
+  - destruct (sl_lookup (ns, n) (xs_store xs)) as [s|]; [|intros H; now injection H as <- <- <-].
+    destruct (is_owner_l id (sl_owners s)).
+    + destruct (load_phase_slices xs ns id rest (acc ++ sl_objects s)) as [[xs2 e2] res] eqn:E.
+      intros H. injection H as <- <- <-. cbn [app]. eapply IH; eauto.
+    + destruct (load_phase_slices _ ns id rest (acc ++ sl_objects s)) as [[xs2 e2] res] eqn:E.
+      intros H. injection H as <- <- <-. cbn. eapply IH; eauto.
+Qed.
+
+Lemma load_phase_slices_some ns id names : forall xs acc xs' evs r,
+  load_phase_slices xs ns id names acc = (xs', evs, Some r) ->
+  (forall n, In n names -> sl_lookup (ns, n) (xs_store xs) <> None) /\
+  (forall k, sl_lookup k (xs_store xs') = None <-> sl_lookup k (xs_store xs) = None).
+Proof.
+  induction names as [|n rest IH]; intros xs acc xs' evs r; cbn [load_phase_slices].
+  - intros H. injection H as <- <- <-. split; [intros n []|tauto].
+  - destruct (sl_lookup (ns, n) (xs_store xs)) as [s|] eqn:El; [|discriminate].
+    destruct (is_owner_l id (sl_owners s)).
+    + destruct (load_phase_slices xs ns id rest (acc ++ sl_objects s)) as [[xs2 e2] [res|]] eqn:E; [|discriminate].
+      intros H. injection H as <- <- <-. destruct (IH _ _ _ _ _ E) as [H1 H2]. split; [|exact H2].
+      intros m [<-|Hm]; [congruence|auto].
+    + match goal with |- context [load_phase_slices ?xs1 ns id rest ?a] =>
+        destruct (load_phase_slices xs1 ns id rest a) as [[xs2 e2] [res|]] eqn:E; [|discriminate] end.
+      intros H. injection H as <- <- <-. destruct (IH _ _ _ _ _ E) as [H1 H2]. cbn [xs_store] in H1, H2.
+      assert (Hn : sl_lookup (ns, n) (xs_store xs) <> None) by congruence.
+      split.
+      * intros m [<-|Hm]; [assumption|]. intros Hnone. apply (H1 m Hm). now apply sl_lookup_put_none.
+      * intros k. rewrite H2. now apply sl_lookup_put_none.
+Qed.
+
+Lemma load_slices_erase ns id sphs : forall xs xs' evs r,
+  load_slices xs ns id sphs = (xs', evs, r) -> erase_slice_events evs = [].
+Proof.
+  induction sphs as [|sp rest IH]; intros xs xs' evs r; cbn [load_slices].
+  - intros H. now injection H as <- <- <-.
+  - destruct (load_phase_slices xs ns id (sp_slices sp) (sp_objects sp)) as [[xs1 e1] [objs|]] eqn:E1.
+    + pose proof (load_phase_slices_erase _ _ _ _ _ _ _ _ E1) as He1.
+      destruct (load_slices xs1 ns id rest) as [[xs2 e2] [phs|]] eqn:E2; intros H; injection H as <- <- <-;
+        rewrite erase_app, He1; eapply IH; eauto.
+    + intros H. injection H as <- <- <-. eapply load_phase_slices_erase; eauto.
+Qed.
+
+Lemma load_slices_some ns id sphs : forall xs xs' evs r,
+  load_slices xs ns id sphs = (xs', evs, Some r) -> sphases_exist (xs_store xs) ns sphs.
+Proof.
+  induction sphs as [|sp rest IH]; intros xs xs' evs r; cbn [load_slices].
+  - intros _ sp n [].
+  - destruct (load_phase_slices xs ns id (sp_slices sp) (sp_objects sp)) as [[xs1 e1] [objs|]] eqn:E1; [|discriminate].
+    destruct (load_slices xs1 ns id rest) as [[xs2 e2] [phs|]] eqn:E2; [|discriminate]. intros _.
+    destruct (load_phase_slices_some _ _ _ _ _ _ _ _ E1) as [H1 H2]. pose proof (IH _ _ _ _ E2) as H3.
+    intros sp' n [<-|Hsp] Hn; [now apply H1|]. intros Hnone. apply (H3 sp' n Hsp Hn). now apply H2.
+Qed.
+
+Lemma slices_exist_false st t s : slices_exist st t s = false -> ~ sphases_exist st (oi_ns (os_id s)) (set_sphases t s).
+Proof.
+  intros Hf Hex. assert (slices_exist st t s = true); [|congruence].
+  unfold slices_exist. apply forallb_forall. intros sp Hsp. apply forallb_forall. intros n Hn.
+  specialize (Hex sp n Hsp Hn). now destruct (sl_lookup _ st).
+Qed.
+
+Section Missing.
+  Variable force : bool.
+
+  Lemma sliced_body_missing sw0 t xs evs0 mem mem0 sw' xs' evs r :
+    find_set (sw_sets sw0) (oi_kind (os_id mem)) (oi_ns (os_id mem)) (oi_name (os_id mem)) = Some mem ->
+    same_spec mem mem0 ->
+    slices_exist (xs_store xs) t mem = false ->
+    Forall (status_keeps mem0) evs0 ->
+    sliced_body force sw0 t xs evs0 mem = (sw', xs', evs, r) ->
+    Forall (status_keeps mem0) (erase_slice_events evs) /\ w_store (sw_w sw') = w_store (sw_w sw0) /\ sw_phases sw' = sw_phases sw0.
+  Proof.
+    intros Hf Hs0 Hex Hev0. unfold sliced_body.
+    destruct (revision_pass sw0 mem) as [[[sw1 evs1] mem1] rr] eqn:Erev.
+    destruct (revision_pass_inv _ _ _ _ _ _ Hf Erev) as (Hs1 & Hst1 & Hph1 & _ & Hev1).
+    assert (Hc0 : os_conds mem = os_conds mem0) by (destruct Hs0 as (?&?&?&?&?&Hc&?); exact Hc).
+    assert (Hev1' : Forall (status_keeps mem0) evs1).
+    { eapply Forall_impl; [|exact Hev1]. intros e. apply status_keeps_same; now rewrite Hc0. }
+    destruct rr.
+    - destruct Hs1 as (Hid & Hph & _).
+      assert (Hsp : set_sphases t mem1 = set_sphases t mem) by (unfold set_sphases; now rewrite Hid, Hph).
+      rewrite Hsp, Hid.
+      destruct (load_slices xs (oi_ns (os_id mem)) (os_id mem) (set_sphases t mem)) as [[xs1 sevs] [phs|]] eqn:El.
+      + exfalso. apply (slices_exist_false _ _ _ Hex). eapply load_slices_some; eauto.
+      + intros H. injection H as <- <- <- <-. pose proof (load_slices_erase _ _ _ _ _ _ _ El) as Her.
+        unfold lift. rewrite erase_app, erase_lift, Her, app_nil_r. repeat split; auto. now apply Forall_app.
+    - (* RevRequeue *)
+      unfold active_body. rewrite Erev.
+      destruct (update_status sw1 _) as [[sw2 m2] ok] eqn:Eu.
+      intros H. injection H as <- <- <- <-. unfold lift. rewrite erase_lift.
+      pose proof (update_status_store _ _ _ _ _ Eu) as (Hst2 & Hph2 & _).
+      split; [|split; congruence].
+      apply Forall_app. split; [assumption|]. apply Forall_app. split; [assumption|].
+      apply Forall_app. split; [apply paused_reads_keep|]. constructor; [|constructor].
+      assert (Hc1 : os_conds mem1 = os_conds mem0) by (destruct Hs1 as (?&?&?&?&?&Hc&?); congruence).
+      unfold status_ev, status_ev_f, status_keeps. cbn [os_conds set_conds]. rewrite !paused_cond_other by discriminate.
+      rewrite Hc1. auto.
+    - unfold active_body. rewrite Erev. intros H. injection H as <- <- <- <-. unfold lift. rewrite erase_lift.
+      repeat split; auto. now apply Forall_app.
+  Qed.
+
+  (** An ObjectSet that is neither deleted nor archived and references a slice that does not exist: the pass
+      writes no member object and no ObjectSetPhase object, and every status it sends carries the stored
+      Available / Succeeded conditions unchanged or Available=False (it never newly claims availability);
+      member objects and phase objects are untouched. *)
+  Theorem sliced_missing_slice_no_rollout x kind ns name mem x' evs r :
+    find_set (sw_sets (xw_sw x)) kind ns name = Some mem ->
+    is_going mem = false ->
+    slices_exist (xs_store (xw_sl x)) (xw_refs x) mem = false ->
+    sliced_pass force x kind ns name = (x', evs, r) ->
+    Forall (status_keeps mem) (erase_slice_events evs) /\
+    w_store (sw_w (xw_sw x')) = w_store (sw_w (xw_sw x)) /\ sw_phases (xw_sw x') = sw_phases (xw_sw x).
+  Proof.
+    intros Hf Hgo Hex. unfold sliced_pass. rewrite Hf. unfold is_going in Hgo.
+    destruct (cond_true (os_conds mem) CArchived).
+    - intros H. injection H as <- <- <-. repeat split. constructor.
+    - cbn in Hgo. rewrite Hgo. pose proof (find_set_self _ _ _ _ _ Hf) as Hf0.
+      unfold sliced_active. destruct (os_fin mem).
+      + destruct (sliced_body force (xw_sw x) (xw_refs x) (xw_sl x) [] mem) as [[[sw' xs'] e'] r'] eqn:E.
+        unfold mk_x. intros H. injection H as <- <- <-. cbn [xw_sw].
+        exact (sliced_body_missing _ _ _ _ _ mem _ _ _ _ Hf0 (same_spec_refl _) Hex (Forall_nil _) E).
+      + destruct (patch_finalizer (xw_sw x) mem true) as [sw0 [m|]] eqn:Ep.
+        * pose proof (patch_finalizer_same _ _ _ _ _ Hf0 Ep) as Hsm. pose proof (patch_finalizer_store _ _ _ _ _ Ep) as (Hst & Hph & _).
+          assert (Hfm : find_set (sw_sets sw0) (oi_kind (os_id m)) (oi_ns (os_id m)) (oi_name (os_id m)) = Some m).
+          { unfold patch_finalizer in Ep. rewrite Hf0, N.eqb_refl in Ep. cbn in Ep. injection Ep as <- <-. cbn [sw_sets os_id set_fin].
+            apply (find_put_set (sw_sets (xw_sw x)) (set_fin mem true (w_rv (sw_w (xw_sw x)))) mem). exact Hf0. }
+          assert (Hexm : slices_exist (xs_store (xw_sl x)) (xw_refs x) m = false).
+          { destruct Hsm as (Hid & Hph' & _). unfold slices_exist, set_sphases in *. now rewrite Hid, Hph'. }
+          destruct (sliced_body force sw0 (xw_refs x) (xw_sl x) [SMeta (MFinalizer true true)] m) as [[[sw' xs'] e'] r'] eqn:E.
+          unfold mk_x. intros H. injection H as <- <- <-. cbn [xw_sw].
+          assert (Hev0 : Forall (status_keeps mem) [SMeta (MFinalizer true true)]) by (constructor; [exact I|constructor]).
+          destruct (sliced_body_missing _ _ _ _ _ mem _ _ _ _ Hfm Hsm Hexm Hev0 E) as (H1 & H2 & H3).
+          repeat split; [assumption|congruence|congruence].
+        * unfold mk_x. intros H. injection H as <- <- <-. cbn [xw_sw].
+          pose proof (patch_finalizer_store _ _ _ _ _ Ep) as (Hst & Hph & _). repeat split; auto.
+          constructor; [exact I|constructor].
+  Qed.
+
+  (** The active path of the repaired wrapper is the same, so the statement holds for it as well. *)
+  Corollary sliced_missing_slice_no_rollout_fixed fault x kind ns name mem x' evs r :
+    find_set (sw_sets (xw_sw x)) kind ns name = Some mem ->
+    is_going mem = false ->
+    slices_exist (xs_store (xw_sl x)) (xw_refs x) mem = false ->
+    sliced_pass_faulty force fault x kind ns name = (x', evs, r) ->
+    Forall (status_keeps mem) (erase_slice_events evs) /\
+    w_store (sw_w (xw_sw x')) = w_store (sw_w (xw_sw x)) /\ sw_phases (xw_sw x') = sw_phases (xw_sw x).
+  Proof.
+    intros Hf Hgo Hex H. apply (sliced_missing_slice_no_rollout x kind ns name mem x' evs r Hf Hgo Hex).
+    unfold sliced_pass_faulty in H. unfold sliced_pass. rewrite Hf in *. unfold is_going in Hgo.
+    destruct (cond_true (os_conds mem) CArchived); [exact H|]. cbn in Hgo. now rewrite Hgo in *.
+  Qed.
+
+  (** Without a failing read the faulty wrapper is the repaired wrapper ... *)
+  Lemma sliced_pass_faulty_none x kind ns name :
+    sliced_pass_faulty force None x kind ns name = sliced_pass_fixed force x kind ns name.
+  Proof.
+    unfold sliced_pass_faulty, sliced_pass_fixed, fault_hits. destruct (find_set _ _ _ _) as [mem|]; [|reflexivity].
+    now rewrite andb_false_r.
+  Qed.
+
+  (** ... and a read of a slice that fails with anything but NotFound while a deleted / archived ObjectSet is torn
+      down makes the pass inert: no request at all (no member delete, the finalizer stays, no Archived=True, no
+      status), the world is unchanged and the pass ends with an error (it is retried). *)
+  Theorem teardown_read_fault_inert i x kind ns name mem :
+    find_set (sw_sets (xw_sw x)) kind ns name = Some mem ->
+    is_going mem = true -> os_fin mem = true ->
+    (i < slice_reads (set_sphases (xw_refs x) mem))%nat ->
+    sliced_pass_faulty force (Some i) x kind ns name = (x, [], SError).
+  Proof.
+    intros Hf Hgo Hfin Hi. unfold sliced_pass_faulty. rewrite Hf. unfold is_going in Hgo.
+    destruct (cond_true (os_conds mem) CArchived); [discriminate|]. cbn in Hgo. rewrite Hgo.
+    unfold fault_hits. rewrite Hfin. apply Nat.ltb_lt in Hi. now rewrite Hi.
+  Qed.
+End Missing.
+
 (** * sliced_equiv_teardown is refuted for the pass as it is (F-C14) *)
 
 Definition has_delete (l : list sev) : bool :=
